@@ -25,6 +25,7 @@ import (
 type batchCfg struct {
 	Size, Delay uint32
 	Pool        int
+	Buf         uint32 // read and write buffer size of the pooled connections (0 = default 64 KiB)
 }
 
 type batchEnv struct {
@@ -48,7 +49,7 @@ func batchEnvFor(cfg batchCfg) *batchEnv {
 		return e
 	}
 	f, sock := stack.NewFake("batched_")
-	e := &batchEnv{cfg: cfg, fake: f, sock: sock, opts: batched.Opts{BatchSize: cfg.Size, BatchDelayMicros: cfg.Delay, EvaluationIntervalSec: 3600}}
+	e := &batchEnv{cfg: cfg, fake: f, sock: sock, opts: batched.Opts{BatchSize: cfg.Size, BatchDelayMicros: cfg.Delay, EvaluationIntervalSec: 3600, ReadBufSize: cfg.Buf, WriteBufSize: cfg.Buf}}
 	_ = batched.NewHandler(sock, e.opts) // creates the relay with one connection
 	if cfg.Pool > 1 {
 		batched.VerifAddConns(sock, cfg.Pool-1)
@@ -67,6 +68,7 @@ func genBatchCfg(t *rapid.T) batchCfg {
 		Size:  rapid.SampledFrom([]uint32{1, 2, 5, 10, 64}).Draw(t, "batchSize"),
 		Delay: rapid.SampledFrom([]uint32{1, 50, 250, 2000}).Draw(t, "batchDelayMicros"),
 		Pool:  rapid.SampledFrom([]int{1, 2, 4}).Draw(t, "pool"),
+		Buf:   rapid.SampledFrom([]uint32{0, 0, 512, 4096}).Draw(t, "connBufSize"),
 	}
 }
 
@@ -229,6 +231,10 @@ func TestC06Sequential(t *testing.T) {
 			switch kind {
 			case wire.Set, wire.Add, wire.Replace:
 				c.Value, c.Flags = genValue(t, "val"), genFlags(t, "flags")
+				if rapid.IntRange(0, 7).Draw(t, "huge") == 0 {
+					// larger than the pooled connection's read buffer
+					c.Value = mkValue(rapid.Uint32Range(0, 99).Draw(t, "hugeSeed"), rapid.SampledFrom([]int{65000, 66000, 70000, 200000}).Draw(t, "hugeLen"))
+				}
 				c.Exptime = ttlOf(rapid.SampledFrom([]int{0, 1, 2, 5}).Draw(t, "ttl"), now)
 			case wire.Append, wire.Prepend:
 				c.Value = genValue(t, "val")
@@ -302,7 +308,7 @@ func TestC06Concurrent(t *testing.T) {
 				switch kind {
 				case wire.Set, wire.Add, wire.Replace, wire.Append:
 					// self-identifying value: caller id and step embedded
-					c.Value = []byte(fmt.Sprintf("<caller %d step %d %s>", ci, s, strings.Repeat("x", rapid.SampledFrom([]int{0, 10, 2000}).Draw(t, "pad"))))
+					c.Value = []byte(fmt.Sprintf("<caller %d step %d %s>", ci, s, strings.Repeat("x", rapid.SampledFrom([]int{0, 10, 2000, 8192, 8192}).Draw(t, "pad"))))
 					c.Flags = uint32(ci*1000 + s)
 				}
 				plans[ci] = append(plans[ci], c)
